@@ -26,6 +26,11 @@ CLAIMED = {
     text='TLC generates Sp(2n,F2) as a state machine (closure under all transvections), checks the symplectic condition and the two-sided closed-form inverse in every state and that the number of states equals the order formula (n=1,2 also against a brute-force count over all binary matrices; n=3 in thorough). The real from_int_tuple/to_int_tuple/inverse are then driven over the COMPLETE mixed-radix index domain in lexicographic order and the recorded trace is validated by TLC (successor tuple, symplectic image, left inverse, two-sided inverse): with |domain| = |group| this is bijectivity. Every symplectic matrix of the model is mapped back to an index; find_transvection is validated on every ordered pair of non-zero vectors.',
     note='Trusted: TLC/SANY, JSON trace encoding (rows packed as integers < 2^20). Complete for n<=2 (quick), n<=3 enumeration and n<=4 vector pairs (thorough); random tuples to n=10.',
     technique='TLA+ spec of Sp(2n,F2) + TLC exhaustive group generation; TLC trace validation of the complete recorded enumeration'),
+ 'C11': dict(
+    cat='model_checking', ref='6/C11',
+    text='Projective measurement is specified over exact Z[w] state vectors (Born marginals in Z[sqrt2], projection onto the outcome). TLC enumerates every n<=5 (6 thorough), every non-empty ascending qubit subset and ten structured state families (basis, product, GHZ, W, graph, zero-probability outcomes, Clifford+T), checking the measurement axioms on the model (probabilities real and summing to the norm, repeated measurement idempotent, projections resolve the state); for each configuration the real measure_quantum_vector is run over seeds until every outcome of the support was seen (remaining outcomes are forced through a Generator subclass) and probabilities, outcome membership, post-measurement state and the repeated measurement are compared with the exact values. Mid-circuit: TLC simulates circuits with measure gates, drawing outcomes from the support of the state at that point; the programs are replayed through real Circuit/MeasureGate objects and the recorded bitstr/probability/final state compared.',
+    note='Trusted: TLC/SANY, tolerance 1e-9; forced outcomes bypass only the RNG draw (np_rng.choice), which C10 covers.',
+    technique='TLA+ spec of projective measurement over Z[w]; TLC exhaustive enumeration of (n, subset, state family) + simulation of circuits with measurement; replay into the code'),
  'C19': dict(
     cat='model_checking', ref='6/C19',
     text='For each shipped code the encoder gate list is read from the live object and handed to TLC as the program: TLC derives the stabilizer generators with the Clifford tableau, decides Knill-Laflamme for EVERY Pauli error of weight 1..d-1 (one state per error; pull-back rule cross-checked against the textbook commutation/group-membership formulation), and decides that each listed stabilizer string lies in +<S>. The real code words, knill_laflamme_inner_product on make_error_list, the shipped stabilizer circuits, make_error_list / make_asymmetric_error_set (n<=6, d<=4, four Z-weights) and quantum_weight_enumerator are then compared with / validated by TLC against those decisions (full <i|E|j> matrices incl. weight-d errors that violate KL).',
